@@ -14,7 +14,8 @@ META = {'assumptions': ['JSON/YAML equivalence of a file and oslo.config find_fi
                         'behaviour: exercised on the real code, the model takes parsed contents and a resolved choice']}
 
 NAMES = ['p0', 'p1', 'p2', 'p3']
-FILE_NAMES = ['b.yaml', 'a.yaml', 'B.yaml', '10.yaml', '9.yaml', 'a.json', 'z', '~x.yaml', 'ab.yaml']
+FILE_NAMES = ['b.yaml', 'a.yaml', 'B.yaml', '10.yaml', '9.yaml', 'a.json', 'z', '~x.yaml', 'ab.yaml', 'a-site.yaml', 'a.b.yaml',
+              'a+x.yaml', 'a', 'a.yaml.bak', '50-base.yaml', '50-base-site.yaml', 'A.yaml', 'a b.yaml']
 
 
 def run(ctx, rep):
@@ -23,7 +24,7 @@ def run(ctx, rep):
 
 
 def _layers(ctx, rep):
-    N = ctx.n(250, 12000)
+    N = ctx.n(400, 12000)
     pend = []
     for case in range(N):
         dirs = ['d1', 'd2', 'd3'][:ctx.rng.randint(1, 3)]
@@ -48,11 +49,11 @@ def _layers(ctx, rep):
                 if d == 'missing.d':
                     continue
                 di = conf_dirs.index(d)
-                fnames = ctx.rng.sample(FILE_NAMES, ctx.rng.randint(0, 3))
+                fnames = ctx.rng.sample(FILE_NAMES, ctx.rng.randint(0, 4))
                 made = {}
                 for fn in fnames:
                     t += 1
-                    m = {n: 'role:%s_%s_%s' % (d, fn.replace('.', '-').replace('~', 't'), n)
+                    m = {n: 'role:%s_%s_%s' % (d, fn.replace('.', '_dot_').replace('~', 't').replace('+', '_plus_').replace(' ', '_sp_'), n)
                          for n in NAMES if ctx.rng.random() < 0.5}
                     w.write((di, fn), m, t, fmt=ctx.rng.choice(['json', 'yaml']), record=False)
                     made[fn] = m
